@@ -1,49 +1,99 @@
 #!/usr/bin/env python3
 """Apply every kept seeded change to /repo in turn (git apply), run all
 registered quick checks, undo it (git checkout), and record in the seed's
-meta.json which checks raised a VIOLATION.  /repo must be clean."""
+meta.json which checks raised a VIOLATION.  /repo must be clean.
+
+With --scratch N the same is done on N scratch copies of /repo's HEAD in
+parallel (git archive | tar, git apply there, AEGEAN_REPO pointing at the
+copy); /repo itself is then not touched."""
 import json, os, subprocess, sys, shutil
 VERIF = os.path.dirname(os.path.dirname(os.path.abspath(__file__)))
 sys.path.insert(0, os.path.join(VERIF, "tools"))
 from verify_seed import run_checks, sh
-only = sys.argv[1:]
+import concurrent.futures as cf, tempfile
+argv = sys.argv[1:]
+JOBS = 0
+if "--scratch" in argv:
+    k = argv.index("--scratch")
+    JOBS = int(argv[k + 1])
+    del argv[k:k + 2]
+only = argv
 st = sh("git -C /repo status --porcelain")[1].strip()
 if st:
     raise SystemExit("/repo not clean: " + st)
 rows = []
-for name in sorted(os.listdir(os.path.join(VERIF, "seeded"))):
+HEAD = sh("git -C /repo rev-parse --short HEAD")[1].strip()
+
+
+def record(name, d, meta, res, where):
+    meta.pop("sweep_error", None)
+    meta["checks_alarmed"] = res
+    meta["checks_run_on"] = where
+    meta["swept_at_repo_head"] = HEAD
+    prop = meta.get("property")
+    if prop is None:
+        # behaviour-preserving refactoring: nothing may print a VIOLATION
+        meta["false_alarms"] = sorted(k for k, v in res.items() if v["exit"] == 1)
+        meta["analysis_errors"] = sorted(k for k, v in res.items() if v["exit"] == 2)
+        row = (name, "FALSE-ALARM" if meta["false_alarms"] else "silent",
+               ",".join("%s:exit%d" % (k, v["exit"]) for k, v in res.items()))
+    else:
+        meta["caught_by_own_property_check"] = prop in res and res[prop]["exit"] == 1
+        meta["caught_by_any_check"] = any(v["exit"] == 1 for v in res.values())
+        row = (name, "caught" if meta["caught_by_own_property_check"] else
+               ("caught-by-other" if meta["caught_by_any_check"] else "MISSED"),
+               ",".join("%s:%s" % (k, "/".join(v["rules"]) or "exit%d" % v["exit"])
+                        for k, v in res.items()))
+    print("%-34s %-16s %s" % row, flush=True)
+    json.dump(meta, open(os.path.join(d, "meta.json"), "w"), indent=1)
+    return row
+
+
+def one_scratch(name):
     d = os.path.join(VERIF, "seeded", name)
     patch = os.path.join(d, "patch.diff")
-    if not os.path.exists(patch) or (only and name not in only):
-        continue
     meta = json.load(open(os.path.join(d, "meta.json")))
-    rc, out = sh("git -C /repo apply %s" % patch)
-    if rc:
-        meta["sweep_error"] = "patch no longer applies: " + out[-200:]
-        rows.append((name, "NO-APPLY", ""))
-    else:
+    t = tempfile.mkdtemp(prefix="sweep_")
+    try:
+        sh("git -C /repo archive HEAD AegeanTools scripts | tar -x -C %s" % t)
+        sh("git init -q .", cwd=t)
+        rc, out = sh("git apply %s" % patch, cwd=t)
+        if rc:
+            meta["sweep_error"] = "patch no longer applies: " + out[-200:]
+            json.dump(meta, open(os.path.join(d, "meta.json"), "w"), indent=1)
+            print("%-34s NO-APPLY" % name, flush=True)
+            return (name, "NO-APPLY", "")
+        res = run_checks(name, t)
+        return record(name, d, meta, res, "a scratch copy of /repo's HEAD "
+                      "with the patch applied (git apply); /repo untouched")
+    finally:
+        shutil.rmtree(t, ignore_errors=True)
+
+
+names = [n for n in sorted(os.listdir(os.path.join(VERIF, "seeded")))
+         if os.path.exists(os.path.join(VERIF, "seeded", n, "patch.diff"))
+         and (not only or n in only)]
+if JOBS:
+    with cf.ThreadPoolExecutor(JOBS) as ex:
+        rows = list(ex.map(one_scratch, names))
+else:
+    for name in names:
+        d = os.path.join(VERIF, "seeded", name)
+        patch = os.path.join(d, "patch.diff")
+        meta = json.load(open(os.path.join(d, "meta.json")))
+        rc, out = sh("git -C /repo apply %s" % patch)
+        if rc:
+            meta["sweep_error"] = "patch no longer applies: " + out[-200:]
+            rows.append((name, "NO-APPLY", ""))
+            json.dump(meta, open(os.path.join(d, "meta.json"), "w"), indent=1)
+            continue
         try:
             res = run_checks(name, None)
         finally:
             sh("git -C /repo checkout -- .")
-        meta.pop("sweep_error", None)
-        meta["checks_alarmed"] = res
-        meta["checks_run_on"] = "/repo with the patch applied (git apply), undone afterwards"
-        meta["swept_at_repo_head"] = sh("git -C /repo rev-parse --short HEAD")[1].strip()
-        prop = meta.get("property")
-        if prop is None:
-            # behaviour-preserving refactoring: nothing may print a VIOLATION
-            meta["false_alarms"] = sorted(k for k, v in res.items() if v["exit"] == 1)
-            meta["analysis_errors"] = sorted(k for k, v in res.items() if v["exit"] == 2)
-            rows.append((name, "FALSE-ALARM" if meta["false_alarms"] else "silent",
-                         ",".join("%s:exit%d" % (k, v["exit"]) for k, v in res.items())))
-        else:
-            meta["caught_by_own_property_check"] = prop in res and res[prop]["exit"] == 1
-            meta["caught_by_any_check"] = any(v["exit"] == 1 for v in res.values())
-            rows.append((name, "caught" if meta["caught_by_own_property_check"] else
-                         ("caught-by-other" if meta["caught_by_any_check"] else "MISSED"),
-                         ",".join("%s:%s" % (k, "/".join(v["rules"])) for k, v in res.items())))
-        print("%-28s %-16s %s" % rows[-1], flush=True)
-    json.dump(meta, open(os.path.join(d, "meta.json"), "w"), indent=1)
+        rows.append(record(name, d, meta, res, "/repo with the patch applied "
+                           "(git apply), undone afterwards"))
+print("---- summary")
 for r in rows:
-    print("%-28s %-16s %s" % r)
+    if r[1] not in ("caught", "silent"):
+        print("%-34s %-16s %s" % r)
